@@ -122,6 +122,14 @@ check("C15", "fault_enumeration",
       "Trusts the encoder cpverif/storage.py (ODF 1.2 white-space rules); trailing runs of empty rows and constructs the encoder never emits are unjudged.",
       "independent encoder -> real reader comparison + container fault enumeration", "DESIGN.md 5/C15")
 
+check("C16", "exploration",
+      "Workbooks are produced with xlsxwriter driven directly (all cell kinds, boundary integers up to 2^53, stress floats, sampled "
+      "dates and times, 1-3 sheets with distinguishable contents, ragged rows); every sheet is read with excel_rows and through "
+      "cutplace.rows with a Sheet property and each cell compared with the text computed from the produced value; string tables "
+      "are written with XlsxRowWriter and read back.",
+      "Trusts xlsxwriter as independent producer (numbers stored with %.16G) and Python's float repr as 'shortest text'.",
+      "independent producer -> real reader comparison, per cell, + writer round trip", "DESIGN.md 5/C16")
+
 NOT_YET = "check not built yet in this session; see DESIGN.md section 5 for the planned monitor"
 
 def main():
